@@ -91,7 +91,7 @@ MIN = {
         'verdict_complete': 50000, 'verdict_incomplete': 50000,
         'defs_succ_opt': 300, 'defs_sub_opt': 300, 'defs_exp_opt': 300,
         'defs_custom_required': 300, 'chain_evals': 10000,
-        'hostile_name_cases': 30,
+        'hostile_name_cases': 30, 'defs_with_suicide_trigger': 25,
         'c11.removals_checked': 1500, 'c11.retained_checked': 300,
         'c11.retained_checked_flow_wait': 5,
     },
@@ -421,9 +421,15 @@ def config_def(ctx, i, j, rng):
         std = {o: marks[o] for o in M.STD}
         cmarks = [marks[nm] for nm in names]
         text = M.render(tree, rng)
-    flow = G.flow_text(
-        std, {nm: (customs[nm], mk) for nm, mk in zip(names, cmarks)},
-        completion=text, rng=rng)
+    cust = {nm: (customs[nm], mk) for nm, mk in zip(names, cmarks)}
+    lines = None
+    if mode in ('plain', 'user') and rng.random() < 0.3:
+        # the task is also the target of a suicide trigger: that removes
+        # it from the pool, it does not change what completes it
+        lines = G.graph_lines(std, cust, rng, 'a') + [
+            rng.choice(['sz => !a', 'sz:fail? => !a', 'sz? & sy => !a'])]
+        ctx.count('defs_with_suicide_trigger')
+    flow = G.flow_text(std, cust, completion=text, rng=rng, lines=lines)
     try:
         cfg = G.load_config(ctx.workdir, flow)
     except CylcError as exc:
